@@ -150,11 +150,35 @@ def select {α} (l : List α) : Item → Except String (List α)
     if m.length ≠ l.length ∧ m.length ≠ 0 then .error "index_error"  -- numpy accepts an empty boolean index
     else .ok ((l.zip m).filterMap fun (x, b) => if b then some x else none)
 
-/-- `OrdinalAxis.__getitem__` : same class, same fields, `values` replaced by the selected ones -/
+def numField? (a : Axis) (k : String) : Option Rat :=
+  match a.fields.lookup k with
+  | some (.num q) => some q
+  | some (.bool b) => some (if b then 1 else 0)
+  | _ => none
+
+/-- `axis[item]`:
+* `OrdinalAxis.__getitem__` : same class, same fields, `values` replaced by the selected ones;
+* `LinearAxis.__getitem__` : only a forward slice (`start ≥ 0`, `step ≥ 1`; the stop is ignored) — the linear axis that starts at
+  the first selected coordinate, `offset + start·sampling`, with sampling `sampling·step`; anything else raises TypeError;
+* every other axis class is not subscriptable (TypeError). -/
 def getitem (a : Axis) (it : Item) : Except String Axis :=
-  match select (values a) it with
-  | .error e => .error e
-  | .ok vs => construct a.cls (setField a.fields "values" (.tup vs))
+  if isOrdinal a.cls then
+    match select (values a) it with
+    | .error e => .error e
+    | .ok vs => construct a.cls (setField a.fields "values" (.tup vs))
+  else if isSubclass a.cls "LinearAxis" then
+    match it with
+    | .slice st _ sp =>
+      let start := st.getD 0
+      let step := sp.getD 1
+      if start < 0 ∨ step < 1 then .error "type_error"
+      else
+        match numField? a "offset", numField? a "sampling" with
+        | some o, some d =>
+          construct a.cls (setField (setField a.fields "offset" (.num (o + (start : Rat) * d))) "sampling" (.num (d * (step : Rat))))
+        | _, _ => .error "type_error"
+    | _ => .error "type_error"
+  else .error "type_error"
 
 /-! ### equality of fields (`safe_equality`) and concatenation -/
 
@@ -179,22 +203,24 @@ def concat (a b : Axis) : Except String Axis :=
     if isSubclass b.cls a.cls && fieldsEq a.fields b.fields "values" then
       construct a.cls (setField a.fields "values" (.tup (values a ++ values b)))
     else .error "runtime_error"
+  else if isLinear a.cls then
+    -- `LinearAxis.concatenate`: pieces that differ only in their offset join to the first piece; else the base rule
+    if (a.fields.lookup "_concatenate") == some (V.bool true) && isLinear b.cls && isSubclass b.cls a.cls
+        && fieldsEq a.fields (setField b.fields "offset" ((a.fields.lookup "offset").getD V.none)) "" then .ok a
+    else .error "runtime_error"
   else
     if (a.fields.lookup "_concatenate") == some (V.bool true) && isSubclass b.cls a.cls && fieldsEq a.fields b.fields "" then .ok a
     else .error "runtime_error"
 
 /-! ### coordinates -/
 
-def numField (a : Axis) (k : String) : Rat :=
-  match a.fields.lookup k with
-  | some (.num q) => q
-  | _ => 0
-
 /-- `axis.coordinates(n)` -/
 def coordinates (a : Axis) (n : Int) : Except String (List V) :=
   if isOrdinal a.cls then .ok (values a)
   else if isLinear a.cls then
-    (AbtemVerif.Scan.axisCoordinates (numField a "offset") (numField a "sampling") n).map fun l => l.map V.num
+    match numField? a "offset", numField? a "sampling" with
+    | some o, some d => (AbtemVerif.Scan.axisCoordinates o d n).map fun l => l.map V.num
+    | _, _ => .error "type_error"
   else if n < 0 then .ok [] else .ok ((arange n.toNat).map V.num)
 
 end AbtemVerif.Axes
